@@ -14,7 +14,8 @@ Definition codes_ok : bool :=
     [code_windows; code_net_timeout; code_net_other; code_tls_record; code_tls_cert; code_tls_ech; code_tls_alert;
      code_auth; code_deny; code_prohibited; code_canceled; code_default] &&
   forallb in_error_range error_status_literals &&
-  (400 <=? status_text_lo) && (status_text_hi <=? 600).
+  (400 <=? status_text_lo) && (status_text_hi <=? 600) &&
+  ((code_timeout =? 0) || in_error_range code_timeout).   (* 0: the source has no generic time-out handler *)
 
 Lemma in_range_nonzero c : in_error_range c = true -> c <> 0.
 Proof. unfold in_error_range. intros H E. subst. discriminate. Qed.
@@ -28,7 +29,7 @@ Section Total.
        code_auth; code_deny; code_prohibited; code_canceled; code_default] = true /\
     forallb in_error_range error_status_literals = true /\ 400 <= status_text_lo /\ status_text_hi <= 600.
   Proof.
-    unfold codes_ok in K.
+    unfold codes_ok in K. apply andb_true_iff in K as [K _].
     apply andb_true_iff in K as [K K4]. apply andb_true_iff in K as [K K3]. apply andb_true_iff in K as [K1 K2].
     split; [exact K1|]. split; [exact K2|]. split; apply N.leb_le; assumption.
   Qed.
@@ -47,6 +48,11 @@ Section Total.
   Proof. unfold h_net. destruct (f_operr f) as [[|]|]; [right; known | right; known | left; reflexivity]. Qed.
   Lemma r_flag c x : in_error_range c = true -> h_flag c x = 0 \/ in_error_range (h_flag c x) = true.
   Proof. intro H. unfold h_flag. destruct x; [right; exact H | left; reflexivity]. Qed.
+  Lemma r_timeout x : h_flag code_timeout x = 0 \/ in_error_range (h_flag code_timeout x) = true.
+  Proof.
+    unfold codes_ok in K. apply andb_true_iff in K as [_ T]. unfold h_flag. destruct x; [|left; reflexivity].
+    apply orb_true_iff in T as [T|T]; [left; apply N.eqb_eq; exact T | right; exact T].
+  Qed.
   Lemma r_status f : feat_ok f -> h_status f = 0 \/ in_error_range (h_status f) = true.
   Proof.
     intro OK. unfold h_status. unfold feat_ok in OK. destruct (f_status f) as [n|]; [|left; reflexivity].
@@ -66,7 +72,7 @@ Section Total.
     intro OK. unfold handler_of.
     repeat match goal with |- context [if str_eqb name ?s then _ else _] => destruct (str_eqb name s) end;
       first [ left; reflexivity | apply r_windows | apply r_net | apply (r_status f OK) | apply r_text
-            | apply r_flag; known ].
+            | apply r_timeout | apply r_flag; known ].
   Qed.
 
   Lemma first_code_range hs f : feat_ok f -> first_code hs f = 0 \/ in_error_range (first_code hs f) = true.
@@ -94,16 +100,16 @@ End Total.
 
 (* ---- the mapping, for the handler order of the source ---- *)
 Definition expected_order : list str :=
-  [b "handleWindowsNetError"; b "handleNetError"; b "handleTLSRecordHeader"; b "handleTLSCertificateError";
+  [b "handleWindowsNetError"; b "handleNetError"; b "handleTimeoutError"; b "handleTLSRecordHeader"; b "handleTLSCertificateError";
    b "handleTLSECHRejectionError"; b "handleTLSAlertError"; b "handleMartianErrorStatus"; b "handleAuthenticationError";
    b "handleDenyError"; b "handleProhibitedError"; b "handleContextCancelationError"; b "handleStatusText"].
 
 Definition orelse (c k : N) : N := if c =? 0 then k else c.
 Definition chain (f : feat) : N :=
-  orelse (h_windows f) (orelse (h_net f) (orelse (h_flag code_tls_record (f_record f))
+  orelse (h_windows f) (orelse (h_net f) (orelse (h_flag code_timeout (f_timeout f)) (orelse (h_flag code_tls_record (f_record f))
   (orelse (h_flag code_tls_cert (f_cert f)) (orelse (h_flag code_tls_ech (f_ech f)) (orelse (h_flag code_tls_alert (f_alert f))
   (orelse (h_status f) (orelse (h_flag code_auth (f_auth f)) (orelse (h_flag code_deny (f_deny f))
-  (orelse (h_flag code_prohibited (f_prohibited f)) (orelse (h_flag code_canceled (f_canceled f)) (orelse (h_text f) 0))))))))))).
+  (orelse (h_flag code_prohibited (f_prohibited f)) (orelse (h_flag code_canceled (f_canceled f)) (orelse (h_text f) 0)))))))))))).
 
 Lemma first_code_chain f : first_code expected_order f = chain f.
 Proof. reflexivity. Qed.
@@ -112,6 +118,7 @@ Section Map.
   Hypothesis Ord : handler_order = expected_order.
   Hypothesis NoWin : goos_windows = false.
   Hypothesis C_to : code_net_timeout = 504.
+  Hypothesis C_gto : code_timeout = 504.
   Hypothesis C_net : code_net_other = 502.
   Hypothesis C_rec : code_tls_record = 502.
   Hypothesis C_cert : code_tls_cert = 502.
@@ -130,35 +137,41 @@ Section Map.
   Lemma map_connection_failure f : f_operr f = Some false -> classify f = 502.
   Proof. intro H. rewrite classify_chain. unfold chain. rewrite win_off. unfold h_net. rewrite H, C_net. reflexivity. Qed.
 
-  (* connect time-out (a *net.OpError with Timeout()): 504 *)
-  Lemma map_connect_timeout f : f_operr f = Some true -> classify f = 504.
-  Proof. intro H. rewrite classify_chain. unfold chain. rewrite win_off. unfold h_net. rewrite H, C_to. reflexivity. Qed.
+  (* connect time-out: a *net.OpError with Timeout(), or no OpError at all and an error with Timeout()
+     (context.DeadlineExceeded of the connect timeout, the transport's TLS handshake timeout): 504 *)
+  Lemma map_connect_timeout f : f_operr f = Some true \/ (f_operr f = None /\ f_timeout f = true) -> classify f = 504.
+  Proof.
+    intro H. rewrite classify_chain. unfold chain. rewrite win_off. unfold h_net.
+    destruct H as [H|[H T]]; rewrite H.
+    - rewrite C_to. reflexivity.
+    - unfold h_flag at 1. rewrite T, C_gto. reflexivity.
+  Qed.
 
   (* TLS failure of any of the four kinds, not wrapped in an OpError: 502 *)
-  Lemma map_tls_failure f : f_operr f = None ->
+  Lemma map_tls_failure f : f_operr f = None -> f_timeout f = false ->
     f_record f || f_cert f || f_ech f || f_alert f = true -> classify f = 502.
   Proof.
-    intros H T. rewrite classify_chain. unfold chain. rewrite win_off. unfold h_net, h_flag. rewrite H, C_rec, C_cert, C_ech, C_alert.
+    intros H TO T. rewrite classify_chain. unfold chain. rewrite win_off. unfold h_net, h_flag. rewrite H, TO, C_rec, C_cert, C_ech, C_alert.
     destruct (f_record f); [reflexivity|]. destruct (f_cert f); [reflexivity|]. destruct (f_ech f); [reflexivity|].
     destruct (f_alert f); [reflexivity|]. discriminate.
   Qed.
 
   (* martian.ErrorStatus{Status: n}: n *)
-  Lemma map_error_status f n : f_operr f = None ->
+  Lemma map_error_status f n : f_operr f = None -> f_timeout f = false ->
     f_record f || f_cert f || f_ech f || f_alert f = false -> f_status f = Some n -> n <> 0 -> classify f = n.
   Proof.
-    intros H T S NZ. rewrite classify_chain. unfold chain. rewrite win_off. unfold h_net, h_flag, h_status. rewrite H, S.
+    intros H TO T S NZ. rewrite classify_chain. unfold chain. rewrite win_off. unfold h_net, h_flag, h_status. rewrite H, TO, S.
     apply orb_false_iff in T as [T A]. apply orb_false_iff in T as [T E]. apply orb_false_iff in T as [R C].
     rewrite R, C, E, A. cbn [orelse N.eqb]. unfold orelse. cbn [N.eqb].
     destruct (n =? 0) eqn:Z; [apply N.eqb_eq in Z; contradiction|]. rewrite Z. reflexivity.
   Qed.
 
   (* anything no handler recognises: 500; a cancelled request context: 500 *)
-  Lemma map_otherwise f : f_operr f = None ->
+  Lemma map_otherwise f : f_operr f = None -> f_timeout f = false ->
     f_record f || f_cert f || f_ech f || f_alert f = false -> f_status f = None ->
     f_auth f || f_deny f || f_prohibited f = false -> h_text f = 0 -> classify f = 500.
   Proof.
-    intros H T S A X. rewrite classify_chain. unfold chain. rewrite win_off. unfold h_net, h_flag, h_status. rewrite H, S, X.
+    intros H TO T S A X. rewrite classify_chain. unfold chain. rewrite win_off. unfold h_net, h_flag, h_status. rewrite H, TO, S, X.
     apply orb_false_iff in T as [T A4]. apply orb_false_iff in T as [T E]. apply orb_false_iff in T as [R C].
     apply orb_false_iff in A as [A P]. apply orb_false_iff in A as [A D].
     rewrite R, C, E, A4, A, D, P, C_canc, C_def. destruct (f_canceled f); reflexivity.
